@@ -32,7 +32,7 @@ func C06(r *core.Run) {
 		"(R06.3) both bounds of the part index are guarded (compiler-reported bounds sites of the uploader discharged); " +
 		"(R06.4) every listed part is compared with the stored part's ETag and a nil slot, unequal/absent ⇒ InvalidPart; " +
 		"(R06.5) abort cannot reach any Backend method; (R06.6) a part is read completely and length-checked before any lock or slot is touched, stored at its own number with the MD5 of that body; " +
-		"(R06.7) the assembled body is appended only from the listed parts' bodies, stored with the initiation metadata, and the ETag is built from the part ETags and the part count. (R06.8) a part's ETag is stored with its body, and lookup and removal of an upload are one critical section of uploader.mu."
+		"(R06.7) the assembled body is appended only from the listed parts' bodies, stored with the initiation metadata, and the ETag is built from the part ETags and the part count. (R06.8) a part's ETag is stored with its body, and lookup and removal of an upload are one critical section of uploader.mu. (R06.9) a refused complete has not modified the upload's parts, and the request's part list is decoded from the whole body."
 	r.NotDecided = "byte equality of the concatenation, 'most recent upload of each part' as a value statement (follows from overwrite-at-index), strictness of ascending order for duplicate numbers"
 	ctx := oblig.NewCtx(r.P)
 	installNonNilHook(r, ctx)
@@ -44,6 +44,7 @@ func C06(r *core.Run) {
 	rule066(r, ctx)
 	rule067(r)
 	rule068(r)
+	rule069(r)
 }
 
 func rule061(r *core.Run) {
@@ -691,4 +692,80 @@ func rule068(r *core.Run) {
 func phiBase(v ssa.Value) bool {
 	_, ok := v.(*ssa.Phi)
 	return ok
+}
+
+// rule069 — a refused complete leaves the pending upload as it was; the
+// request's part list is read completely.
+func rule069(r *core.Run) {
+	r.Rule("R06.9", "in uploader.CompleteMultipartUpload no return of a non-nil error is reachable after a store into the upload's parts (an element of multipartUpload.parts, a field of a part reached through it, or the parts field itself): a complete that is refused — wrong ETag, unknown part, wrong order, backend error — must leave every uploaded part in place for the corrected retry; and xmlDecodeBody hands the decoder the whole request body (read to EOF, no length-limiting wrapper, no slice of it): a part list of any size is seen completely")
+	fn := mustFunc(r, "gofakes3.(*uploader).CompleteMultipartUpload")
+	n := 0
+	if fn != nil {
+		core.Instrs(fn, func(in ssa.Instruction) {
+			st, ok := in.(*ssa.Store)
+			if !ok {
+				return
+			}
+			as := r.P.SliceOf(st.Addr, core.SliceOpts{Depth: -1, NoIndex: true})
+			if !as.Has("field:gofakes3.multipartUpload.parts") && !as.Has("fieldaddr:gofakes3.multipartUpload.parts") {
+				if fa, isFA := st.Addr.(*ssa.FieldAddr); !isFA || r.P.FieldName(fa) != "gofakes3.multipartUpload.parts" {
+					return
+				}
+			}
+			// a local slice built from the parts (a copy) is not the upload
+			if root := baseRoot(st.Addr); root != nil {
+				return
+			}
+			n++
+			bad := ""
+			for ret, ev := range returnedErrors(fn) {
+				if !definitelyNil(r, core.BlockLocalLoad(ev)) && core.Reaches(st, ret) {
+					bad = pos(r, ret)
+				}
+			}
+			r.Check(bad == "", "R06.9", key(fname(r, fn), "no refusal after the upload's parts were modified", sprintf("#%d", n)), pos(r, st), "no error return after the store",
+				"the pending upload's parts are modified and an error can still be returned afterwards (return at "+bad+"): a refused complete has already lost uploaded parts, the corrected retry fails with InvalidPart")
+		})
+		r.Held("R06.9", key(fname(r, fn), "stores into the upload's parts enumerated"), "", sprintf("%d", n))
+	}
+	xd := mustFunc(r, "gofakes3.(*GoFakeS3).xmlDecodeBody")
+	if xd == nil {
+		return
+	}
+	var decoded []ssa.Value
+	var decCalls []*ssa.Call
+	core.Instrs(xd, func(in ssa.Instruction) {
+		c, ok := in.(*ssa.Call)
+		if !ok {
+			return
+		}
+		switch r.P.CalleeName(c) {
+		case "encoding/xml.Unmarshal", "encoding/xml.NewDecoder":
+			decoded = append(decoded, c.Call.Args[0])
+			decCalls = append(decCalls, c)
+		}
+	})
+	if len(decoded) == 0 {
+		r.Unresolved("R06.9: xmlDecodeBody no longer decodes through encoding/xml")
+		return
+	}
+	rp := paramNamed(xd, "rdr")
+	if rp == nil && len(xd.Params) > 1 {
+		rp = xd.Params[1]
+	}
+	for i, d := range decoded {
+		ds := r.P.SliceOf(d, core.SliceOpts{Depth: 2})
+		bad := ""
+		for c := range ds.Calls {
+			switch cn := r.P.CalleeName(c); cn {
+			case "io.LimitReader", "net/http.MaxBytesReader", "io.CopyN", "io.ReadAtLeast", "io.ReadFull", "(*io.LimitedReader).Read", "io.NewSectionReader":
+				bad = cn
+			}
+		}
+		if ds.Has("slice-expr") {
+			bad = "a slice of the body"
+		}
+		r.Check(bad == "" && rp != nil && ds.HasValue(rp), "R06.9", key(fname(r, xd), "whole body decoded", sprintf("#%d", i)), pos(r, decCalls[i]), "decoder input = the request body read to EOF",
+			"the XML decoder does not get the whole request body ("+bad+"): a long part list is cut and answered MalformedXML — an upload with many parts can never be completed")
+	}
 }
